@@ -28,7 +28,10 @@ RULE = (
     'stores x depth x {fresh, shared between two ports, shared one level '
     'down} update dictionaries x {new, same} update object per call x 1 / '
     '3 steps; exactly the wired nodes change, by exactly one delta per '
-    'returned update.')
+    'returned update. Rewire family: a port or a single variable of a '
+    'port is rewired with Store.connect() (target given as store, '
+    'relative path, absolute path) before the engine is built or after '
+    'one tick; reads and writes follow the new wiring.')
 ASSUMPTIONS = [
     'topologies that omit a declared port, or _path-less dictionaries that '
     'list only some variables, are outside the well-formed alphabet',
@@ -316,7 +319,123 @@ def run_alias(job, acc):
           f'wired to, or was applied more than once')
 
 
+# ----------------------------------------------------------------------
+# ports rewired through the store API (Store.connect)
+
+REWIRES = {
+    'port-p0': [(('p0',), ('t',))],
+    'port-p1': [(('p1',), ('t1',))],
+    'var-a': [(('p0', 'a'), ('deep', 'u', 'x'))],
+    'var-b': [(('p0', 'b'), ('t', 'b'))],
+    'both-ports': [(('p0',), ('t',)), (('p1',), ('t1',))],
+}
+
+
+def rewire_jobs():
+    out = []
+    for name in REWIRES:
+        for form in ('store', 'relative', 'absolute'):
+            for when in ('pre', 'mid'):
+                for place in ((), ('c',)):
+                    out.append(('rewire', name, form, when, place))
+    return out
+
+
+def run_rewire(job, acc):
+    from vivarium.core.store import generate_state
+    _, name, form, when, place = job
+    case = {'shape': 'rewire', 'job': job}
+    V = lambda rule, fp, msg: acc.violate(  # noqa
+        fw.violation(rule, fp, msg, case))
+    acc.case(key=job, outcome=f'rewire:{name}:{form}:{when}')
+    leaf = shapes.leaf
+    proc = worlds.probes.Probe({
+        'pid': 'proc', 'ts': 1,
+        'schema': {'p0': {'a': leaf(0), 'b': leaf(0)},
+                   'p1': {'c': leaf(0)}},
+        'update': {'p0': {'a': 1, 'b': 10}, 'p1': {'c': 100}}})
+    decl = worlds.probes.Probe({
+        'pid': 'decl', 'ts': 1, 'log_states': False,
+        'schema': {'t': {'a': leaf(0), 'b': leaf(0)},
+                   't1': {'c': leaf(0)}, 'u': {'x': leaf(0)}},
+        'update': {}})
+    processes, topology, state = {}, {}, {}
+    put(processes, place + ('proc',), proc)
+    put(processes, place + ('decl',), decl)
+    put(topology, place + ('proc',), {'p0': ('s',), 'p1': ('s1',)})
+    put(topology, place + ('decl',), {'t': ('t',), 't1': ('t1',),
+                                       'u': ('deep', 'u')})
+    values = {('s', 'a'): 1, ('s', 'b'): 2, ('s1', 'c'): 3,
+              ('t', 'a'): 50, ('t', 'b'): 60, ('t1', 'c'): 70,
+              ('deep', 'u', 'x'): 7}
+    for n, v in values.items():
+        put(state, place + n, v)
+    wired = {('p0', 'a'): ('s', 'a'), ('p0', 'b'): ('s', 'b'),
+             ('p1', 'c'): ('s1', 'c')}
+    delta = {('p0', 'a'): 1, ('p0', 'b'): 10, ('p1', 'c'): 100}
+
+    def rewire(root):
+        node = root.get_path(place + ('proc',))
+        for port_path, target in REWIRES[name]:
+            if form == 'store':
+                node.connect(port_path, root.get_path(place + target))
+            elif form == 'relative':
+                node.connect(port_path, target)
+            else:
+                node.connect(port_path, place + target, absolute=True)
+            if len(port_path) == 1:
+                for var in [v for v in wired if v[0] == port_path[0]]:
+                    wired[var] = target + (var[1],)
+            else:
+                wired[port_path] = target
+
+    def tick():
+        for var, node in wired.items():
+            values[node] += delta[var]
+    try:
+        store = generate_state(processes, topology, state)
+        if when == 'pre':
+            rewire(store)
+        worlds.probes.TRACE = trace = []
+        eng = worlds.probes.MonitoredEngine(
+            store=store, emitter={'type': 'vmc_probe'}, display_info=False)
+        seen = []
+        for k in range(2):
+            if when == 'mid' and k == 1:
+                rewire(eng.state)
+            before = {var: values[node] for var, node in wired.items()}
+            eng.update(1)
+            tick()
+            inv = [ev for ev in trace if ev[0] == 'invoke' and
+                   ev[2] == 'proc'][-1]
+            got = flat_values(inv[6])
+            if got != before:
+                V('C06.read', 'rewired-port-reads-other-node',
+                  f'{job}: tick {k}: the process reads {got}, the nodes '
+                  f'its ports are wired to hold {before}')
+                return
+        worlds.probes.TRACE = None
+        tree = worlds.probes.pure(eng.state.get_value())
+    except Exception as e:  # noqa
+        worlds.probes.TRACE = None
+        V('C06.crash', f'rewire:{type(e).__name__}',
+          f'{job}: unexpected {e!r}')
+        return
+    here = tree
+    for k in place:
+        here = here[k]
+    got = {n: v for n, v in flat_values(here).items()}
+    if got != values:
+        diff = {n: (got.get(n), values.get(n))
+                for n in set(got) | set(values) if got.get(n) != values.get(n)}
+        V('C06.write', 'rewired-port-writes-other-node',
+          f'{job}: nodes (got, expected) {diff}')
+
+
 def run_job(shape, acc):
+    if isinstance(shape, tuple) and shape[0] == 'rewire':
+        run_rewire(shape, acc)
+        return
     if shape == 'replaced-store':
         replaced_store_worlds(acc)
         return
@@ -328,12 +447,15 @@ def run_job(shape, acc):
 
 def run(ctx):
     return ctx.map(run_job, all_shapes(ctx) + ['replaced-store'] +
-                   alias_jobs())
+                   alias_jobs() + rewire_jobs())
 
 
 def replay(case):
     acc = fw.Acc()
-    if case['shape'] == 'alias':
+    if case['shape'] == 'rewire':
+        j = case['job']
+        run_rewire(tuple(j[:4]) + (tuple(j[4]),), acc)
+    elif case['shape'] == 'alias':
         j = case['job']
         run_alias((j[0], tuple(j[1])) + tuple(j[2:]), acc)
     elif case['shape'] is None:
